@@ -33,12 +33,13 @@ func VerifSplitInt64Range(minBound, maxBound int64, precisionStep uint) []VerifT
 	return rv
 }
 
-// VerifEnumerateCount returns the number of terms the splitter's ranges
-// enumerate (without a dictionary filter), capped at limit.
+// VerifEnumerateCount returns the number of candidate terms the numeric range
+// searcher visits for the range (the enumeration it really uses, with a filter
+// that accepts everything), capped at limit.
 func VerifEnumerateCount(minBound, maxBound int64, precisionStep uint, limit int) int {
 	n := 0
 	for _, tr := range splitInt64Range(minBound, maxBound, precisionStep) {
-		n += len(tr.Enumerate(func([]byte) bool { return true }))
+		n += len(tr.enumerateTerms(func([]byte) bool { return true }))
 		if n > limit {
 			return n
 		}
